@@ -14,6 +14,7 @@ ASSUME("re:Pattern.match",
        params={"self": "Pattern", "string": "Str", "pos": "Int=0"}, returns="Opt[Obj[Match]]",
        ensures=[("deterministic", "(result is not None) == pat_matches(self, string, pos)"),
                 ("group1", "implies(result is not None, match_group(result, 1) == pat_group1(self, string, pos))"),
+                ("as-a-function-of-the-pattern-text", "implies(pos == 0, (result is not None) == re_matches_f(pat_source(self), pat_flags(self), string) and implies(result is not None and match_group(result, 1) is not None, the(match_group(result, 1)) == re_group_f(pat_source(self), pat_flags(self), string, 1)))"),
                 ("anchored-span", "implies(result is not None, result.start_ == pos and pos <= result.end_ and result.end_ <= len(string))"),
                 ("in-range", "implies(result is not None, 0 <= pos and pos <= len(string))"),
                 ("fresh", "implies(result is not None, fresh(result))")],
